@@ -466,7 +466,8 @@ Definition step_y (s : state) (a : nat) (tok : bool) (rest : list frame) (pc : y
       | YQueue body =>
           let c := getev s r in
           if c.(fired) then goto (addlog s [GUStart o]) YPuser (YFuture body) u
-          else goto (setev s r (c <| wakers := WTask a :: c.(wakers) |>)) YPpend st u   (* the only poller of this receiver is the owner task *)
+          else goto (setev s r (c <| wakers := WTask a :: List.filter (fun w => negb (is_task a w)) c.(wakers) |>)) YPpend st u
+                                                      (* a oneshot receiver keeps only its NEWEST waker: the owner's previous one is replaced *)
       | YFuture _ => goto s YPuser st u                (* not reached *)
       end
   | YPuser =>                                         (* future.poll_unpin: one primitive of the user future per step *)
